@@ -11,12 +11,13 @@ the three return arrays agree in length; the plain call returns the same tuples 
 import numpy as np
 from scipy.spatial.transform import Rotation as R
 from mc.checks.findlib import *
+from mc.ref.geom import subset_rmsd_bound
 
 ENGINE = 'E1+E2'
 
 
 def plan(tier, seed):
-    scs = base_scenarios(tier, seed, hints=True)
+    scs = base_scenarios(tier, seed, hints=True) + special_scenarios(tier)
     return dict(scenarios=scs, exhaustive=True, chunk=40, menus=menus(tier, seed),
                 bounds=dict(draw_deviation_bound=draw_bound(tier), executions_cap_per_scenario=60 if tier == 'quick' else 300),
                 rule='one scenario per alphabet tuple, every draw answer within the bound inside; non-trivial = at least one match is reported and the scenario has a decoy, a boundary-crossing placement or hints',
@@ -53,10 +54,10 @@ def check_match(m, sc, idx, pos, quat, n, pel, pp, cell, atol):
     tol = atol + 1e-5 * max(np.abs(pos).max(), np.abs(P).max() + np.abs(pos).max()) + 1e-9
     if res > tol:
         bad.append(('rigid-image', 'match %r: returned rotation + best translation leaves a coordinate residual %.4g > atol %.4g' % (idx, res, atol)))
-    eps, rmsd, _, _ = kabsch(pp, pos)
+    rmsd = subset_rmsd_bound(pp, pos)
     pd = np.linalg.norm(pp[:, None] - pp[None], axis=2); xd = np.linalg.norm(pos[:, None] - pos[None], axis=2)
     if rmsd > 1.8 * atol + 1e-3 or np.abs(pd - xd).max() > 3.7 * atol:
-        bad.append(('out-of-tolerance', 'match %r is clearly outside the tolerance for every proper motion (Kabsch rmsd %.3f, pair discrepancy %.3f, atol %.3f): mirror image or wrong atoms' % (idx, rmsd, np.abs(pd - xd).max(), atol)))
+        bad.append(('out-of-tolerance', 'match %r is clearly outside the tolerance for every proper motion (Kabsch rmsd over all atoms / over 4-atom subsets >= %.3f, pair discrepancy %.3f, atol %.3f): mirror image or wrong atoms' % (idx, rmsd, np.abs(pd - xd).max(), atol)))
     return bad
 
 
